@@ -6,6 +6,7 @@
 // header:  proto planner=<name> seed=<n> dim=<d> trace=<0|1> boxes <pdim> <k> (<lo>*pdim <hi>*pdim)*k
 // ops:     setpd <sx>*d <gx>*d <thr>      new ProblemDefinition (the previous one is dropped), setProblemDefinition
 //          setsg <sx>*d <gx>*d <thr>      same ProblemDefinition object: setStartAndGoalStates + clearSolutionPaths
+//          mutpd <sx>*d <gx>*d <thr>      as setsg, then planner->setProblemDefinition(the same pointer)
 //          addstart <x>*d                 pdef->addStartState (the one change of a pdef a resumed solve accounts for)
 //          solve <k>                      solve(ptc) with ptc false for the first k evaluations
 //          clear | clearQuery | getpd | clearsol
@@ -22,7 +23,7 @@
 //   cmp compares the top solution before and after the call with the real PlannerSolution::operator<.
 // In trace mode (planner RRT) ` | ev=` lists what happened inside the planner call: A<serial> / F<serial>
 // (allocState / freeState), P<b> (termination condition evaluated), M<serial of s1>:<b>:<bits of s2>,
-// G<serial>:<sat>:<dist bits>.
+// G<serial>:<sat>:<dist bits>; control planners: X<src serial>:<dst serial>:<bits of dst> (propagate), V<serial>:<b> (isValid).
 #include "common/planning.h"
 #include <ompl/base/DiscreteMotionValidator.h>
 #include <ompl/base/PlannerData.h>
@@ -137,6 +138,27 @@ private:
     std::shared_ptr<Tracker> t_;
 };
 
+// validity checker that logs every answer (trace mode, control planners): V<serial>:<b>
+class TraceVC : public vp::RecordingValidityChecker
+{
+public:
+    TraceVC(const ob::SpaceInformationPtr &si, vp::Env env, std::shared_ptr<Tracker> t)
+      : vp::RecordingValidityChecker(si, std::move(env), false), t_(std::move(t))
+    {
+    }
+    bool isValid(const ob::State *state) const override
+    {
+        bool r = vp::RecordingValidityChecker::isValid(state);
+        std::lock_guard<std::mutex> g(t_->m);
+        if (t_->trace && t_->inCall)
+            t_->ev.push_back("V" + std::to_string(t_->serial(state)) + ":" + (r ? "1" : "0"));
+        return r;
+    }
+
+private:
+    std::shared_ptr<Tracker> t_;
+};
+
 class TraceGoal : public ob::GoalState
 {
 public:
@@ -163,10 +185,40 @@ private:
     std::shared_ptr<Tracker> t_;
 };
 
+// control space that counts allocControl/freeControl (leak observation for controls)
+struct ControlCounter
+{
+    std::atomic<long> live{0}, allocs{0}, frees{0};
+};
+
+class CountingRVControl : public oc::RealVectorControlSpace
+{
+public:
+    CountingRVControl(const ob::StateSpacePtr &space, unsigned dim, std::shared_ptr<ControlCounter> c)
+      : oc::RealVectorControlSpace(space, dim), c_(std::move(c))
+    {
+    }
+    oc::Control *allocControl() const override
+    {
+        ++c_->live;
+        ++c_->allocs;
+        return oc::RealVectorControlSpace::allocControl();
+    }
+    void freeControl(oc::Control *control) const override
+    {
+        --c_->live;
+        ++c_->frees;
+        oc::RealVectorControlSpace::freeControl(control);
+    }
+
+private:
+    std::shared_ptr<ControlCounter> c_;
+};
+
 // ------------------------------------------------------------------------------------------------ planners
 static const std::vector<std::string> &controlPlannerNames()
 {
-    static const std::vector<std::string> n = {"cRRT", "cSST", "cEST", "cKPIECE1", "cPDST"};
+    static const std::vector<std::string> n = {"cRRT", "cRRTi", "cSST", "cEST", "cKPIECE1", "cPDST"};
     return n;
 }
 
@@ -184,6 +236,13 @@ static ob::PlannerPtr makePlanner(const std::string &n, const ob::SpaceInformati
     if (csi)
     {
         if (n == "cRRT") return std::make_shared<oc::RRT>(csi);
+        if (n == "cRRTi")
+        {
+            // control RRT keeping every propagated state as a motion (multi-step propagations, see the header set-up)
+            auto p = std::make_shared<oc::RRT>(csi);
+            p->setIntermediateStates(true);
+            return p;
+        }
         if (n == "cSST")
         {
             auto p = std::make_shared<oc::SST>(csi);
@@ -260,6 +319,7 @@ struct Session
     ob::StateSpacePtr space;
     ob::SpaceInformationPtr si;
     std::shared_ptr<oc::SpaceInformation> csi;
+    std::shared_ptr<ControlCounter> ccounter = std::make_shared<ControlCounter>();
     ob::PlannerPtr planner;
     ob::ProblemDefinitionPtr pdef;
     std::vector<std::vector<double>> curStarts, curGoals, retired;
@@ -566,7 +626,7 @@ int main()
         S.space = sp;
         if (isControl(S.pname))
         {
-            auto cspace = std::make_shared<oc::RealVectorControlSpace>(S.space, S.dim);
+            auto cspace = std::make_shared<CountingRVControl>(S.space, S.dim, S.ccounter);
             ob::RealVectorBounds cb(S.dim);
             cb.setLow(-1.0);
             cb.setHigh(1.0);
@@ -574,19 +634,47 @@ int main()
             S.csi = std::make_shared<oc::SpaceInformation>(S.space, cspace);
             S.si = S.csi;
             unsigned d = S.dim;
-            S.csi->setStatePropagator([d](const ob::State *s, const oc::Control *u, const double dt, ob::State *out) {
+            std::shared_ptr<Tracker> tr = S.tracker;
+            ob::StateSpacePtr sp0 = S.space;
+            S.csi->setStatePropagator([d, tr, sp0](const ob::State *s, const oc::Control *u, const double dt, ob::State *out) {
                 const double *x = s->as<ob::RealVectorStateSpace::StateType>()->values;
                 const double *v = u->as<oc::RealVectorControlSpace::ControlType>()->values;
                 double *y = out->as<ob::RealVectorStateSpace::StateType>()->values;
+                double tmp[8];
                 for (unsigned j = 0; j < d; ++j)
-                    y[j] = x[j] + v[j] * dt;
+                    tmp[j] = x[j] + v[j] * dt;
+                for (unsigned j = 0; j < d; ++j)
+                    y[j] = tmp[j];
+                if (tr->trace)
+                {
+                    std::lock_guard<std::mutex> g(tr->m);
+                    if (tr->inCall)
+                    {
+                        std::string e = "X" + std::to_string(tr->serial(s)) + ":" + std::to_string(tr->serial(out));
+                        for (unsigned j = 0; j < d; ++j)
+                            e += ":" + vp::bits(y[j]);
+                        tr->ev.push_back(e);
+                    }
+                }
             });
-            S.csi->setPropagationStepSize(0.05);
-            S.csi->setMinMaxControlDuration(1, 8);
+            if (S.pname == "cRRTi")
+            {
+                // many short steps: a propagation crosses the goal region in the middle, not at its last state
+                S.csi->setPropagationStepSize(0.02);
+                S.csi->setMinMaxControlDuration(2, 20);
+            }
+            else
+            {
+                S.csi->setPropagationStepSize(0.05);
+                S.csi->setMinMaxControlDuration(1, 8);
+            }
         }
         else
             S.si = std::make_shared<ob::SpaceInformation>(S.space);
-        S.si->setStateValidityChecker(std::make_shared<vp::RecordingValidityChecker>(S.si, env, false));
+        if (S.tracker->trace && S.csi)
+            S.si->setStateValidityChecker(std::make_shared<TraceVC>(S.si, env, S.tracker));
+        else
+            S.si->setStateValidityChecker(std::make_shared<vp::RecordingValidityChecker>(S.si, env, false));
         S.si->setStateValidityCheckingResolution(0.02);
         if (S.tracker->trace && !S.csi)
             S.si->setMotionValidator(std::make_shared<TraceMV>(S.si, S.tracker));
@@ -620,13 +708,13 @@ int main()
         try
         {
             const std::string &op = t[0];
-            if ((op == "setpd" || op == "setsg") && t.size() == 2 + 2 * S.dim)
+            if ((op == "setpd" || op == "setsg" || op == "mutpd") && t.size() == 2 + 2 * S.dim)
             {
                 size_t i = 1;
                 auto s = readPoint(t, i);
                 auto g = readPoint(t, i);
                 double thr = vp::needF(t, i);
-                if (op == "setsg" && !S.pdef)
+                if ((op == "setsg" || op == "mutpd") && !S.pdef)
                 {
                     std::cout << "bad-op\n";
                     continue;
@@ -654,6 +742,13 @@ int main()
                 {
                     S.fillStartGoal(s, g, thr);
                     S.pdef->clearSolutionPaths();
+                    if (op == "mutpd")
+                    {
+                        // the new query was written into the SAME ProblemDefinition object; announce it
+                        S.enter();
+                        S.planner->setProblemDefinition(S.pdef);
+                        S.leave();
+                    }
                 }
                 std::cout << op << " ok svalid=" << startValid(s) << " gvalid=" << startValid(g)
                           << " plive=" << (S.counter->live.load() - S.accounted()) << S.evs() << std::endl;
@@ -732,6 +827,6 @@ int main()
     S.pdef.reset();
     long live = S.counter->live.load();
     std::cout << "end live=" << live << " allocs=" << S.counter->allocs.load() << " frees=" << S.counter->frees.load()
-              << " badfree=" << S.tracker->badfree << ev << std::endl;
+              << " badfree=" << S.tracker->badfree << " clive=" << S.ccounter->live.load() << ev << std::endl;
     return 0;
 }
